@@ -100,6 +100,71 @@ def sl(s):
 
 
 # --------------------------------------------------------------------------
+# purity probe: the models of evaluation functions are mathematical functions of the point, so the
+# implementation must behave as one: no state carried between (or shared by overlapping) evaluations
+# on one problem object, and no mutation of the caller's vector.
+# --------------------------------------------------------------------------
+class ProbeVector(list):
+    """A list that counts element reads and runs `hook()` once, just before read number k."""
+
+    def __init__(self, data, k=None, hook=None):
+        super().__init__(data)
+        self.reads, self._k, self._hook = 0, k, hook
+
+    def _tick(self):
+        if self._k is not None and self.reads == self._k and self._hook is not None:
+            h, self._hook = self._hook, None
+            h()
+        self.reads += 1
+
+    def __getitem__(self, i):
+        self._tick()
+        r = super().__getitem__(i)
+        return list(r) if isinstance(i, slice) else r
+
+    def __iter__(self):
+        for i in range(len(self)):
+            self._tick()
+            yield super().__getitem__(i)
+
+
+def purity_probe(call, x, other, rng=None, max_k=8):
+    """call(vec) -> list of floats: evaluates the implementation on the vector object `vec`.
+    Returns descriptions of purity failures: result for x changed by an evaluation of `other` nested
+    between two element reads (what a thread switch does under parallel evaluation), or the
+    caller's vector (list or numpy array) modified by the evaluation."""
+    import numpy as np
+    fails = []
+    hx = lambda r: [float(v).hex() for v in r]
+    base = hx(call([float(v) for v in x]))
+    pv = ProbeVector([float(v) for v in x])
+    if hx(call(pv)) != base:
+        return fails            # the probe object itself changes the behaviour: not usable here
+    n = pv.reads
+    ks = sorted(set(list(range(min(n, 3))) + list(range(max(0, n - 3), n)) +
+                    ([rng.randrange(n) for _ in range(max_k)] if rng and n else [])))[:max_k + 6]
+    for k in ks:
+        pv = ProbeVector([float(v) for v in x], k, lambda: call([float(v) for v in other]))
+        r = hx(call(pv))
+        if r != base:
+            fails.append("evaluation is not re-entrant: the result for x changes when another point is evaluated on the same "
+                         "problem object between element reads %d and %d of x (as a thread switch does under parallel "
+                         "evaluation): %s instead of %s" % (k - 1, k, [float.fromhex(v) for v in r], [float.fromhex(v) for v in base]))
+            break
+    lst = [float(v) for v in x]
+    call(lst)
+    if hx(lst) != hx(x):
+        fails.append("evaluation modifies the caller's list: %r became %r" % (list(x), lst))
+    arr = np.array([float(v) for v in x], dtype=np.float64)
+    r = hx(call(arr))
+    if hx(arr) != hx(x):
+        fails.append("evaluation modifies the caller's numpy array in place: %r became %r" % (list(x), arr.tolist()))
+    if r != base and hx(call(np.array([float(v) for v in x], dtype=np.float64))) != r:
+        fails.append("evaluation of a numpy-array point is not repeatable")
+    return fails
+
+
+# --------------------------------------------------------------------------
 class Violation(Exception):
     pass
 
